@@ -26,6 +26,9 @@ CONFIGS = {
     "set-set-unwelcome": dict(modes=("set", "set"), welcome_error=True),
     "alloc-input-helper": dict(modes=("allocate", "input"), helper_calls=True),
     "set-input-helper-lossy": dict(modes=("set", "input"), helper_calls=True, eager=False, max_opens=4),
+    # connection loss incl. reconnect attempts that die during the WebSocket negotiation (onClose without onOpen) after an earlier success
+    "set-set-failed-reconnects": dict(modes=("set", "set"), adversary=("failopen-reconnect",), max_opens=4),
+    "alloc-input-failed-reconnects": dict(modes=("allocate", "input"), adversary=("failopen-reconnect",), max_opens=4),
     "solo-alloc": dict(modes=("allocate",), nmsg=(1,)),
     "solo-input": dict(modes=("input",), nmsg=(1,), adversary=("third",)),
 }
